@@ -139,6 +139,10 @@ func (g *Gen) Block() Blk {
 	n := dataLens[g.pick(len(dataLens))]
 	if g.pick(40) == 0 {
 		n = 16300 + g.pick(200)
+		if g.pick(2) == 0 {
+			// section length (CID + data) right at the 2-byte/3-byte varint boundary, for the usual CID lengths
+			n = 16384 - []int{36, 34, 36, 68}[g.pick(4)] - 2 + g.pick(4)
+		}
 	}
 	return g.BlockWith(g.bytes(n))
 }
